@@ -104,13 +104,62 @@ Proof.
   repeat constructor; cbn; try discriminate; reflexivity.
 Qed.
 
-(** Not covered by the theorem, and wrong in the current code: [Bencher::counter]
-    of the same kind called *after* [input_counter] (documented as "override an
-    existing counter of the same type") leaves the kind per-input with the
+(** * [Bencher::counter] after [input_counter] of the same kind *)
+
+Lemma push_samples_constant ssize raw : forall n ci,
+  ci_input ci = false ->
+  push_samples ssize (n, ci) raw = Ok ((n + length raw)%nat, ci).
+Proof.
+  induction raw as [|x r IH]; intros n ci Hi; cbn [push_samples length].
+  - rewrite Nat.add_0_r. reflexivity.
+  - unfold push_sample. cbn [fst snd]. rewrite Hi. cbn [bind]. rewrite IH by exact Hi. f_equal. f_equal. lia.
+Qed.
+
+Lemma record_rounds_constant rounds : forall n ci kept,
+  ci_input ci = false -> n = length kept ->
+  record_rounds (n, ci) rounds = Ok (length (kept_samples kept rounds), ci).
+Proof.
+  induction rounds as [|[[tune ssize] raw] rest IH]; intros n ci kept Hi Hn; cbn [record_rounds kept_samples].
+  - subst. reflexivity.
+  - unfold record_round. cbn [snd].
+    replace (clear_input_counts ci) with ci by (unfold clear_input_counts; rewrite Hi; reflexivity).
+    destruct tune.
+    + rewrite push_samples_constant by exact Hi. cbn [bind]. apply IH; [exact Hi|].
+      cbn [app]. rewrite map_length. reflexivity.
+    + rewrite push_samples_constant by exact Hi. cbn [bind]. apply IH; [exact Hi|].
+      rewrite app_length, map_length. subst. reflexivity.
+Qed.
+
+(** Current code: a constant set with [Bencher::counter] after [input_counter]
+    of the same kind replaces it: whatever the rounds, no panic, one stored
+    count, the kind is not per-input, and every sample reports that constant. *)
+Theorem counter_overrides_input_counter ci0 c rounds :
+  let ci := {| ci_counts := [c]; ci_input := false |} in
+  set_counter c (set_input_counter ci0) = ci /\
+  record_rounds (0%nat, set_counter c (set_input_counter ci0)) rounds
+    = Ok (length (kept_samples [] rounds), ci) /\
+  constant_counter_sb c ci = true /\
+  forall s, count_for ci s = Some c.
+Proof.
+  cbn zeta. split; [reflexivity|]. split; [|split].
+  - apply (record_rounds_constant rounds 0%nat _ []); reflexivity.
+  - unfold constant_counter_sb. cbn. apply N.eqb_refl.
+  - intros s. reflexivity.
+Qed.
+
+(** Before commit 5377f60 [set_counter] left the kind per-input with the
     constant as a stale first entry; without a tuning round (explicit sample
-    size) every sample then reads its predecessor's count. *)
-Example counter_after_input_counter_is_stale :
-  record_rounds (0%nat, set_counter 3023 (set_input_counter {| ci_counts := []; ci_input := false |}))
+    size) every sample then read its predecessor's count (4 counts for 3
+    samples). *)
+Example old_counter_after_input_counter_is_stale :
+  record_rounds (0%nat, set_counter_old 3023 (set_input_counter {| ci_counts := []; ci_input := false |}))
                 [(false, 2, [[252; 726]; [432; 141]; [615; 321]])]
   = Ok (3%nat, {| ci_counts := [3023; 489; 286; 468]; ci_input := true |}).
+Proof. reflexivity. Qed.
+
+(** The same run on the current code. *)
+Example counter_after_input_counter_now :
+  record_rounds (0%nat, set_counter 3023 (set_input_counter {| ci_counts := []; ci_input := false |}))
+                [(false, 2, [[252; 726]; [432; 141]; [615; 321]])]
+  = Ok (3%nat, {| ci_counts := [3023]; ci_input := false |}).
 Proof. reflexivity. Qed.
